@@ -1426,7 +1426,46 @@ def rule_N7(ctx):
 
 
 # ------------------------------------------------------------------------ N8
+def _safe_name_separators(ctx):
+    """a listed (safe) name never contains a character the path tokeniser splits on: the sanitiser's replace-class takes
+    `/` and `\\`, so that a printed name can be typed back as one path token"""
+    ms = ctx.fn(ST, "Image.make_safe_name", "N8")
+    from .util import regex_value
+    import re._constants as sc_
+    subs = [c for c in own_nodes(ms) if isinstance(c, ast.Call) and isinstance(c.func, ast.Attribute) and c.func.attr == "sub" and len(c.args) == 2]
+    taken = {"/": False, "\\": False}
+    for c in subs:
+        rg = _regex_of(ctx, ms, c.func.value)
+        if rg is None:
+            continue
+        pat, fl = rg[0], rg[1]
+
+        def walk(seq):
+            for op, av in seq:
+                if op is sc_.IN:
+                    for ch in taken:
+                        if rx.class_accepts(av, ch):
+                            taken[ch] = True
+                elif op is sc_.LITERAL and chr(av) in taken:
+                    taken[chr(av)] = True
+                elif op is sc_.ANY:
+                    for ch in taken:
+                        taken[ch] = True
+                elif op is sc_.SUBPATTERN:
+                    walk(av[3])
+                elif op is sc_.BRANCH:
+                    for alt in av[1]:
+                        walk(alt)
+                elif op in (sc_.MAX_REPEAT, sc_.MIN_REPEAT):
+                    walk(av[2])
+        walk(rx.parse(pat, fl or 0))
+    ok = all(taken.values()) and bool(subs)
+    ctx.ob("N8", ms, "safe names contain no path separator (`/` and `\\` are replaced), so a listed name is one path token", ok,
+           "" if ok else f"not replaced: {[k for k, v in taken.items() if not v]} - `ls` prints a name that parse_path splits in two", inst="safe-name-separators")
+
+
 def rule_N8(ctx):
+    _safe_name_separators(ctx)
     pp = ctx.fn(ST, "Traversable.parse_path", "N8")
     tries = [t for t in own_nodes(pp) if isinstance(t, ast.Try) and any(isinstance(n, ast.GeneratorExp) for n in ast.walk(t))]
     if len(tries) != 1:
